@@ -122,6 +122,9 @@ def run(ctx):
     digits = [48 + rng.randrange(10) for _ in range(40)]
     # printf
     pf = inputs("PI_printf_q.cfg" if q else "PI_printf_t.cfg", 40000 if q else 400000)
+    # the rarer length modifiers, flags and conversions (z t j L + # blank ' u i o X p): every string up to length 3, so that
+    # a format ending right after each of them is an input (a mutation-campaign survivor had removed the assertion after 'j')
+    pf += inputs("PI_printf_mods.cfg", 5000)
     longs = [[37] + digits + [100], [37, 46] + digits + [100], [37, 45, 48] + digits[:12] + [46] + digits[:12] + [108, 108, 120],
              [37] + digits[:10] + [36, 100], [37, 42, 46, 42, 108, 100, 37, 115, 37, 37, 37], [37] * 7]
     items = []
